@@ -18,7 +18,7 @@ import common as C
 import gen as G
 
 THEOREMS = ['dec_roundtrip', 'string_roundtrip', 'events_wellformed', 'parse_render', 'parse_render_ws',
-            'concat_docs', 'tojson_value_partial', 'truncation_errors_partial', 'roundtrip_events']
+            'concat_docs', 'tojson_value', 'tojson_value_partial', 'truncation_errors_partial', 'roundtrip_events']
 COQ_DIR = os.path.join(C.VERIF, 'c15', 'coq')
 COQ_LOGICAL = '-R %s/coq AwkV -R . AwkJson' % C.VERIF
 NEEDS_SAN = True
